@@ -297,6 +297,10 @@ func (c *Variant) SetAsObject(value any) {
 		v, _ := c.value.(*Variant)
 		c.typ = v.typ
 		c.value = v.value
+		// An array variant keeps its own copy of the list
+		if a, ok := v.value.([]*Variant); ok {
+			c.value = append([]*Variant{}, a...)
+		}
 	default:
 		c.typ = Object
 	}
@@ -397,6 +401,10 @@ func (c *Variant) Assign(value *Variant) {
 	if value != nil {
 		c.typ = value.typ
 		c.value = value.value
+		// An array variant keeps its own copy of the list
+		if a, ok := value.value.([]*Variant); ok {
+			c.value = append([]*Variant{}, a...)
+		}
 	} else {
 		c.typ = Null
 		c.value = nil
